@@ -170,18 +170,37 @@ class Pair:
         self.wire.shutdown()
 
 
-def establish_case(rnd, host_active, first, link_in_enable=0.0):
+def establish_case(rnd, host_active, first, link_in_enable=0.0, wait_hook=False):
     """enable in the given order, connect (after both enable() calls returned, or inside the second one), wait for both to
     communicate; returns the case literal and observations"""
     pr = Pair(rnd, host_active)
     pr.wire.link_in_enable = link_in_enable
+    waiters, waited = [], {}
     try:
+        if wait_hook:
+            # an application thread calls waitfor_communicating() while the handshake runs; the one preemption that matters is forced:
+            # the thread is held where it registers its wake-up event until the handler IS communicating
+            for name, h in (("host", pr.host), ("equip", pr.equip)):
+                class Held(list):
+                    def append(self, item, h=h):
+                        deadline = time.monotonic() + 10
+                        while h.communication_state.current.value != 8 and time.monotonic() < deadline:
+                            time.sleep(0.002)
+                        list.append(self, item)
+                h._wait_event_list = Held(h._wait_event_list)
+                th = threading.Thread(target=lambda name=name, h=h: waited.__setitem__(name, h.waitfor_communicating(8)), daemon=True)
+                th.start()
+                waiters.append(th)
         order = [pr.host, pr.equip] if first == "host" else [pr.equip, pr.host]
         for h in order:
             h.enable()
         if not link_in_enable:
             pr.wire.connect()
         ok = pr.both_communicating()
+        for th in waiters:
+            th.join(12)
+        if wait_hook and ok:
+            ok = waited.get("host") is True and waited.get("equip") is True
         # the peer's S1F14 for the own S1F13 may still be on its way: wait until the wire has been quiet for a while
         deadline = time.monotonic() + 5
         last, since = None, time.monotonic()
@@ -200,7 +219,7 @@ def establish_case(rnd, host_active, first, link_in_enable=0.0):
     en = {("host", True): "EnA", ("host", False): "EnP", ("equip", True): "EnP", ("equip", False): "EnA"}
     olit = "[" + ";".join(en[(who, active_is_host)] for who in ((first, "equip" if first == "host" else "host"))) + "]"
     lit = "{| v_order := " + olit + "; v_a2p := [" + ";".join(k for k in a if not k.startswith("other")) + "]; v_p2a := [" + ";".join(k for k in b if not k.startswith("other")) + "]; v_goal := " + ("true" if ok and sel else "false") + " |}"
-    return lit, {"host_active": host_active, "first": first, "link_up_inside_enable_seconds": link_in_enable, "communicating": ok, "selected": sel, "active_sent": a, "passive_sent": b}
+    return lit, {"host_active": host_active, "first": first, "link_up_inside_enable_seconds": link_in_enable, "waitfor_communicating": dict(waited) if wait_hook else None, "communicating": ok, "selected": sel, "active_sent": a, "passive_sent": b}
 
 
 def service_case(rnd, host_active):
@@ -286,6 +305,19 @@ def service_case(rnd, host_active):
         if pr.reports != want_reports:
             problems.append(f"an event with two linked reports was triggered once; the host received {pr.reports!r}, expected {want_reports!r}")
         want += [(3, [(10, 124), (20, 77)]), (3, [(20, 77)])]
+        # the host clears everything (S2F37 disable all, S2F33 delete all) and subscribes again: the old links are gone, the event is reported once
+        call(h.clear_collection_events)
+        del pr.events[:]
+        e.trigger_collection_events([3])
+        time.sleep(0.3)
+        if pr.events:
+            problems.append(f"after clear_collection_events() a triggered event still reached the host: {pr.events!r}")
+        call(h.subscribe_collection_event, 3, [10])
+        e.trigger_collection_events([3])
+        until(lambda: len(pr.events) >= 1)
+        if pr.events != [(3, [(10, 124)])]:
+            problems.append(f"clear_collection_events(), subscribe_collection_event(3, [10]), one trigger: the host received {pr.events!r}")
+        want = list(pr.events)
         ack = call(h.send_remote_command, "START", [])
         until(lambda: len(pr.started) >= 1)
         if pr.started != [1] or int(ack.HCACK.get()) != 4:
@@ -356,8 +388,9 @@ def run(tier, replay=None):
         for host_active in (True, False):
             for first in ("host", "equip"):
                 lie = 0.3 if rep % 3 == 1 else 0.0   # every third round: the link is up and selected before the second enable() returns
-                r = common.guarded(lambda host_active=host_active, first=first, lie=lie: establish_case(rnd, host_active, first, lie),
-                                   f"establish: host_active={host_active}, first enabled={first}, link up inside enable()={lie}", wedged, 60.0)
+                hook = rep % 3 == 2                  # every third round: application threads in waitfor_communicating(), held at the critical point
+                r = common.guarded(lambda host_active=host_active, first=first, lie=lie, hook=hook: establish_case(rnd, host_active, first, lie, hook),
+                                   f"establish: host_active={host_active}, first enabled={first}, link up inside enable()={lie}, waitfor_communicating threads={hook}", wedged, 90.0)
                 if r is not None:
                     lits.append(r[0])
                     raws.append(r[1])
